@@ -1,6 +1,7 @@
 //! Native driver of engine T: runs the REAL cwe_checker passes on generated inputs and dumps
 //! inputs/outputs in the canonical JSON defined in conv.rs. One JSON document per input line.
 mod conv;
+mod domain;
 
 use cwe_checker_lib::intermediate_representation::*;
 use serde_json::{json, Value};
@@ -116,6 +117,7 @@ fn main() {
             }
         };
         let r = match cmd {
+            "domain" => catch_unwind(AssertUnwindSafe(|| domain::cmd_domain(&v))).unwrap_or_else(|p| json!({"panic": panic_msg(p)})),
             "lift" => catch_unwind(AssertUnwindSafe(|| cmd_lift(&v))).unwrap_or_else(|p| json!({"panic": panic_msg(p)})),
             "optimize" => catch_unwind(AssertUnwindSafe(|| cmd_optimize(&v))).unwrap_or_else(|p| json!({"panic": panic_msg(p)})),
             _ => json!({"error": "unknown command"}),
